@@ -7,6 +7,7 @@ import (
 
 	netty "github.com/go-netty/go-netty"
 	"github.com/go-netty/go-netty/verifsim/simnet"
+	"github.com/go-netty/go-netty/verifsim/simrt"
 )
 
 func init() { Register(&PropDef{ID: "C04", Run: runC04}) }
@@ -66,8 +67,114 @@ func (p *c04Payload) before(ex, wire int) { p.ExBefore, p.WireBefore = ex, wire 
 //go:norace
 func (p *c04Payload) after(ex, wire int) { p.ExAfter, p.WireAfter = ex, wire }
 
+// runC04Shared: several goroutines encode through ONE codec instance at once (a codec is installed once per
+// channel and the channel's write entry points are meant for concurrent use). Whatever the interleaving, every
+// emitted frame's header must agree with its body: the emitted stream must decode, by the reference decoder, into
+// exactly the payloads written.
+//
+//go:norace
+func runC04Shared(e *Env) {
+	var spec *FrameSpec
+	for {
+		spec = drawFrameSpec(e)
+		if spec.Encoder() != nil && spec.Kind != fkFixed {
+			break
+		}
+	}
+	if spec.Max < 5000 {
+		spec.Max = 1 << 20
+	}
+	cc := e.drawChan(true, []int{8, 2})
+	if cc.Async {
+		cc.Until = true
+	}
+	writers := 2 + e.P(2)
+	per := 1 + e.P(3)
+	var all [][]byte
+	plans := make([][][]byte, writers)
+	for w := 0; w < writers; w++ {
+		for i := 0; i < per; i++ {
+			// lengths whose encoded headers differ from writer to writer
+			size := []int{3, 300, 1, 130, 70, 2000, 17000, 66000}[e.P(8)] + w
+			p := framePayload(len(all), size)
+			if spec.Kind == fkDelimiter {
+				p = delimFree(p, spec.Delim)
+			}
+			if !spec.Admissible(p) {
+				p = framePayload(len(all), 70+w)
+				if spec.Kind == fkDelimiter {
+					p = delimFree(p, spec.Delim)
+				}
+				if !spec.Admissible(p) {
+					continue
+				}
+			}
+			all = append(all, p)
+			plans[w] = append(plans[w], p)
+		}
+	}
+	e.Describe("codec=%s; %d goroutines x %d payloads through one encoder instance on channel=%s", spec, writers, per, cc)
+	enc := e.NewRig(cc, false)
+	encPl := netty.NewPipeline()
+	encPl.AddLast(spec.Encoder(), &Probe{env: e, Name: "enc-ex", Swallow: true, ReadTransport: true})
+	enc.Pl = encPl
+	enc.Ch = cc.Factory()(1, enc.Ctx, encPl, enc.Conn, enc.X)
+	e.Go("main", func() {
+		enc.Pl.ServeChannel(enc.Ch)
+		for w := 0; w < writers; w++ {
+			w := w
+			e.Go(fmt.Sprintf("writer%d", w), func() {
+				for _, p := range plans[w] {
+					e.Step()
+					func() {
+						defer func() { recover() }()
+						enc.Ch.Write(append([]byte(nil), p...))
+					}()
+				}
+			})
+		}
+	})
+	end := e.RunToEnd()
+	cls := spec.Class() + ",concurrent-writers"
+	if end == simrt.EndQuiescent || end == simrt.EndAllDone {
+		if n := len(encExceptions(enc)); n > 0 {
+			e.Violate("encode", cls+",rejected-admissible", "%d exceptions were raised for admissible payloads", n)
+		}
+		frames, ends := spec.RefDecode(enc.Conn.Wire)
+		consumed := 0
+		if len(ends) > 0 {
+			consumed = ends[len(ends)-1]
+		}
+		used := make([]bool, len(all))
+		ok := len(frames) == len(all) && consumed == len(enc.Conn.Wire)
+		for _, f := range frames {
+			found := false
+			for k, p := range all {
+				if !used[k] && bytes.Equal(f, spec.Delivered(p)) {
+					used[k], found = true, true
+					break
+				}
+			}
+			if !found {
+				ok = false
+			}
+		}
+		if !ok {
+			e.Violate("encode-header-body-agree", cls, "%d payloads were written by %d goroutines; the emitted %d bytes decode (reference decoder) into %d frames consuming %d bytes, not into exactly those payloads: some header does not agree with its body", len(all), writers, len(enc.Conn.Wire), len(frames), consumed)
+		}
+	}
+	e.Count("kind:"+fkNames[spec.Kind], 1)
+	e.Count("concurrent_encoder_runs", 1)
+	e.Go("teardown", func() { enc.Ch.Close(fmt.Errorf("teardown")) })
+	e.Sim.Run()
+}
+
 //go:norace
 func runC04(e *Env) {
+	if e.P(8) == 7 {
+		runC04Shared(e)
+		return
+	}
 	spec := drawFrameSpec(e)
 	n := 1 + e.P(8)
 	if spec.Kind == fkDelimiter && n > 4 {
